@@ -38,6 +38,7 @@ THOROUGH_S = 800
 LEVELS = ("FL", "CL", "RTL")
 DATA_WORDS = 64                    # words in the data region
 DATA_BYTES = DATA_WORDS * 4
+LOW_BASE, LOW_WORDS = 0x100, 32   # second small data area below the reset vector, addressed off x0
 DATA_BASES = [0x2000, 0x3000, 0x10000, 0x7F800, 0xFE000]
 POOL = [1, 2, 3, 4, 5, 6, 7]       # registers under pressure
 R_B0, R_B1, R_B2, R_B3, R_MASK = 31, 30, 29, 28, 27
@@ -162,6 +163,7 @@ def first_mem_diff(got, exp):
 def interpret(case):
   words, _ = T.assemble(case["program"])
   sections = T.memory_image(words, case["data"], case["data_base"])
+  sections.append((LOW_BASE, T.words_to_bytes(case.get("low_data", []))))
   halt = T.RESET_VECTOR + 4 * len(words)
   ref = T.run(sections, case["mngr2proc"], halt, max_steps=20000)
   return sections, ref
@@ -251,6 +253,9 @@ class Gen:
 
   def addr(self):
     """static address operand: (base register, offset) of a word in the data region"""
+    if self.i(0, 6) == 0:                            # base register x0, low data area
+      k = self.i(0, LOW_WORDS - 1)
+      return 0, LOW_BASE + 4 * k, k
     k = self.i(0, DATA_WORDS - 1) if self.i(0, 2) else self.i(0, 3)
     b = self.i(0, 3)
     if b == 0: return R_B0, 4 * k, k
@@ -380,7 +385,7 @@ class Gen:
     self.emit(("bne", rc, 0, lab) if self.i(0, 1) else ("bne", 0, rc, lab))
 
   ITEMS = ["alu"] * 22 + ["addi"] * 10 + ["lw"] * 8 + ["sw"] * 8 + ["dyn_mem"] * 5 + ["store_load"] * 6 + \
-          ["load_use"] * 6 + ["csrr"] * 4 + ["csrw"] * 8 + ["csr_pair"] * 4 + ["fwd"] * 11 + ["loop"] * 5 + \
+          ["load_use"] * 6 + ["csrr"] * 4 + ["csrw"] * 8 + ["csr_pair"] * 4 + ["fwd"] * 11 + ["loop"] * 7 + \
           ["nop"] * 2
 
   def block(self, nitems, depth, ro, allow_loop=True, nloop=0):
@@ -451,6 +456,7 @@ def proc_cases(draw, max_items=14, max_steps=260):
   g.epilogue()
   program = [T.fmt(x) for x in g.out]
   data = draw(st.lists(value32, min_size=DATA_WORDS, max_size=DATA_WORDS))
+  low_data = draw(st.lists(value32, min_size=LOW_WORDS, max_size=LOW_WORDS))
   pool = draw(st.lists(value32, min_size=1, max_size=12))
   words, _ = T.assemble(program)
   halt = T.RESET_VECTOR + 4 * len(words)
@@ -461,7 +467,8 @@ def proc_cases(draw, max_items=14, max_steps=260):
     return (pool[j % len(pool)] + 0x01010101 * (j // len(pool))) & T.MASK32
 
   try:
-    ref = T.run(T.memory_image(words, data, data_base), feed, halt, max_steps=max_steps)
+    ref = T.run(T.memory_image(words, data, data_base) + [(LOW_BASE, T.words_to_bytes(low_data))],
+                feed, halt, max_steps=max_steps)
   except T.StepLimit:
     assume(False)
   cfg = {
@@ -472,7 +479,7 @@ def proc_cases(draw, max_items=14, max_steps=260):
     "stall_seed": draw(st.integers(0, 2 ** 16)),
     "sched_seed": draw(st.integers(0, 2 ** 16)),
   }
-  return {"kind": "proc", "program": program, "data_base": data_base, "data": data,
+  return {"kind": "proc", "program": program, "data_base": data_base, "data": data, "low_data": low_data,
           "mngr2proc": list(ref.consumed), "cfg": cfg}
 
 
@@ -493,7 +500,7 @@ def one_proc(ctx, case):
   ctx.label("programs")
   ctx.label("dyn_instructions", ref.steps)
   for k, n in stats.items():
-    if k.startswith("inst_") or k in ("nop", "write_x0", "mem_neg_offset"):
+    if k.startswith("inst_") or k in ("nop", "write_x0", "mem_neg_offset", "mem_base_x0"):
       ctx.label("dyn_" + k, n)
     else:
       ctx.label("prog_with_" + k)
@@ -513,7 +520,7 @@ def one_proc(ctx, case):
     ctx.extra["cycles_" + lv] = ctx.extra.get("cycles_" + lv, 0) + results[lv]["cycles"]
   ctx.extra["max_cycle_ratio"] = max(ctx.extra.get("max_cycle_ratio", 0.0), ratio)
   if is_nontrivial(stats, cfg):
-    ctx.nontriv({"p": case["program"], "d": case["data"], "m": case["mngr2proc"],
+    ctx.nontriv({"p": case["program"], "d": case["data"], "l": case["low_data"], "m": case["mngr2proc"],
                  "c": [cfg[k] for k in ("src_delay", "sink_delay", "mem_stall_prob", "mem_latency")]})
   if ctx.classes.get("programs", 0) % 7 == 1:
     ctx.sample({"program": case["program"], "cfg": cfg, "mngr2proc": [hex(x) for x in case["mngr2proc"]],
